@@ -2,3 +2,4 @@ SPECIFICATION Spec
 CONSTANT Task = "literals"
 INVARIANTS LawsHold Report
 CHECK_DEADLOCK FALSE
+INVARIANT FloatConstants
